@@ -9,6 +9,8 @@ import (
 	"math/big"
 	"sort"
 
+	"github.com/fxamacker/cbor/v2"
+
 	"github.com/taurusgroup/multi-party-sig/pkg/ecdsa"
 	"github.com/taurusgroup/multi-party-sig/pkg/math/curve"
 	"github.com/taurusgroup/multi-party-sig/pkg/party"
@@ -23,6 +25,7 @@ import (
 	"github.com/taurusgroup/multi-party-sig/verifharness/ref"
 	"github.com/taurusgroup/multi-party-sig/verifharness/sim"
 	"github.com/taurusgroup/multi-party-sig/verifharness/tape"
+	"github.com/taurusgroup/multi-party-sig/verifharness/toy"
 )
 
 var Group = curve.Secp256k1{}
@@ -44,6 +47,7 @@ const (
 	DoernerRefresh   = "doerner-refresh"
 	DoernerSign      = "doerner-sign"
 	XOR              = "xor"
+	Toy              = "toy" // Session.Pattern gives the round pattern
 )
 
 // Session describes one protocol execution: who takes part and with which inputs.
@@ -53,6 +57,7 @@ type Session struct {
 	IDs       []party.ID // participants of this session (for Doerner: [receiver, sender])
 	T         int
 	Msg       []byte
+	Pattern   string // toy protocols only
 
 	CMP      map[party.ID]*cmp.Config
 	Frost    map[party.ID]*frost.Config
@@ -127,6 +132,8 @@ func (s *Session) StartFunc(id party.ID) (f protocol.StartFunc, err error) {
 		}
 	case XOR:
 		f = example.StartXOR(id, s.IDs)
+	case Toy:
+		f = toy.Start(id, s.IDs, s.Pattern)
 	default:
 		return nil, fmt.Errorf("unknown protocol %q", s.Proto)
 	}
@@ -252,3 +259,87 @@ func SigBytes(result interface{}) []byte {
 }
 
 func EqualBytes(a, b []byte) bool { return bytes.Equal(a, b) }
+
+// ResultBytes is a canonical encoding of any protocol result, for equality across parties and schedules.
+func ResultBytes(v interface{}) ([]byte, error) {
+	if b := SigBytes(v); b != nil {
+		return b, nil
+	}
+	switch r := v.(type) {
+	case []byte:
+		return r, nil
+	case *cmp.Config:
+		return r.MarshalBinary()
+	case *doerner.ConfigReceiver:
+		// the OT setup has unexported fields; shares, key and chain key are what later runs depend on
+		s, _ := r.SecretShare.MarshalBinary()
+		p, _ := r.Public.MarshalBinary()
+		return append(append(s, p...), r.ChainKey...), nil
+	case *doerner.ConfigSender:
+		s, _ := r.SecretShare.MarshalBinary()
+		p, _ := r.Public.MarshalBinary()
+		return append(append(s, p...), r.ChainKey...), nil
+	case *ecdsa.PreSignature:
+		var b bytes.Buffer
+		b.Write(r.ID)
+		rb, _ := r.R.MarshalBinary()
+		k, _ := r.KShare.MarshalBinary()
+		c, _ := r.ChiShare.MarshalBinary()
+		b.Write(rb)
+		b.Write(k)
+		b.Write(c)
+		for _, pm := range []*party.PointMap{r.RBar, r.S} {
+			ids := make([]string, 0, len(pm.Points))
+			for id := range pm.Points {
+				ids = append(ids, string(id))
+			}
+			sort.Strings(ids)
+			for _, id := range ids {
+				pb, _ := pm.Points[party.ID(id)].MarshalBinary()
+				fmt.Fprintf(&b, "|%q=%x", id, pb)
+			}
+			b.WriteString("#")
+		}
+		return b.Bytes(), nil
+	case *frost.Config:
+		var b bytes.Buffer
+		fmt.Fprintf(&b, "%q|%d|", r.ID, r.Threshold)
+		s, _ := r.PrivateShare.MarshalBinary()
+		p, _ := r.PublicKey.MarshalBinary()
+		b.Write(s)
+		b.Write(p)
+		b.Write(r.ChainKey)
+		ids := make([]string, 0, len(r.VerificationShares.Points))
+		for id := range r.VerificationShares.Points {
+			ids = append(ids, string(id))
+		}
+		sort.Strings(ids)
+		for _, id := range ids {
+			pb, _ := r.VerificationShares.Points[party.ID(id)].MarshalBinary()
+			fmt.Fprintf(&b, "|%q=%x", id, pb)
+		}
+		return b.Bytes(), nil
+	case *frost.TaprootConfig:
+		var b bytes.Buffer
+		fmt.Fprintf(&b, "%q|%d|", r.ID, r.Threshold)
+		s, _ := r.PrivateShare.MarshalBinary()
+		b.Write(s)
+		b.Write(r.PublicKey)
+		b.Write(r.ChainKey)
+		ids := make([]string, 0, len(r.VerificationShares))
+		for id := range r.VerificationShares {
+			ids = append(ids, string(id))
+		}
+		sort.Strings(ids)
+		for _, id := range ids {
+			pb, _ := r.VerificationShares[party.ID(id)].MarshalBinary()
+			fmt.Fprintf(&b, "|%q=%x", id, pb)
+		}
+		return b.Bytes(), nil
+	}
+	em, err := cbor.CanonicalEncOptions().EncMode()
+	if err != nil {
+		return nil, err
+	}
+	return em.Marshal(v)
+}
